@@ -130,6 +130,19 @@ def frame(text):
     return {"order": order, "cats": cats}
 
 
+def frames(text):
+    """Every block: [{"name", "order", "cats"}...] (frame() is frames()[0] without the name)."""
+    out = []
+    for b in parse(text):
+        cats = {}
+        order = []
+        for cat, items, rows, _ in b["cats"]:
+            order.append(cat)
+            cats[cat] = (list(items), [list(r) for r in rows])
+        out.append({"name": b["name"], "order": order, "cats": cats})
+    return out
+
+
 _PLAIN = re.compile(r"^[A-Za-z0-9+\-.,:/()\[\]=*%<>@!&~^|`{}\\?][^\s]*$")
 
 
@@ -148,6 +161,11 @@ def quote(v):
     if '"' not in v:
         return '"' + v + '"'
     return "\n;" + v + "\n;\n"
+
+
+def emit_blocks(blocks):
+    """blocks: list of (name, cats)."""
+    return "".join(emit(n, c) for n, c in blocks)
 
 
 def emit(name, cats):
